@@ -1,6 +1,6 @@
 """Table from which bin/mkmanifest writes MANIFEST.json."""
 
-HOOK_COMMITS = []
+HOOK_COMMITS = ["1753f51", "362ff43"]
 
 TLC_NOTE = ("Trusted base: TLC 1.8, the TLA+ modules under /verif/spec (checked against their own sanity theorems on every run), "
             "the harness's projection of real API results into the exchange format, serde's own dispatch. Bounds: see evidence.")
@@ -54,6 +54,13 @@ CHECKS = [
              "valid file (Trace_Writer with err_io), and the recorded write_vectored call sequences are validated by TLC (Trace_Vectored).",
      "note": TLC_NOTE,
      "technique": "TLA+ model of the vectored write loop checked by TLC + scheduled sinks under the real writer, call sequences and resulting files trace-validated by TLC"},
+    {"property_id": "C05", "level": "model_checking", "design_ref": "DESIGN.md §6 C05",
+     "text": "TLC model-checks the per-codec encode loops against each library's status protocol (CodecLoop.tla; the loops as found before the "
+             "repairs are rejected) and the writer state machine. Real code: op sequences x 6 codecs x levels (incl. above-max) x block sizes, every file read "
+             "back with slice, chunked (1-byte, irregular) and BufReader (capacity 1, 7, 8192) readers, plus boundary-sized and large blocks (8/32/64 KiB +-1 "
+             "up to 2 MB, compressible and incompressible); every read is validated by TLC against ContainerReaderAbs (Trace_Reader, intact).",
+     "note": TLC_NOTE + " Compression libraries are uninterpreted (called directly by the harness for de-framing).",
+     "technique": "TLA+ models (CodecLoop.tla, ContainerWriter.tla) checked by TLC + write/read round trips on the real code trace-validated by TLC (Trace_Reader)"},
     {"property_id": "C12", "level": "model_checking", "design_ref": "DESIGN.md §6 C12",
      "text": "TLC checks that the implementation-shaped skipping semantics (AvroSkip.tla: unvalidated strings, unsigned varints, jumping over sized blocks) "
              "ends exactly where Dec ends for every layout of every enumerated value; the real decoder is run with every sub-tree (two levels) ignored, "
